@@ -4,3 +4,6 @@ package data
 
 // VerifBufSize exposes the unexported transfer buffer size to the verification harness.
 const VerifBufSize = bufSize
+
+// VerifCap exposes cap(c.buf) (the allocator-dependent part of the Chunk state).
+func (c *Chunk) VerifCap() int { return cap(c.buf) }
